@@ -101,7 +101,9 @@ fn draw_writer(rng: &mut Rng) -> (WriterCfg, Vec<u8>) {
         1 => WriterCfg::Vec,
         _ => WriterCfg::Paged(*rng.pick(&[1usize, 2, 3, 7, 8, 13, 16, 64, 255, 256])),
     };
-    let pl = match rng.below(8) {
+    let sides = if rng.chance(1, 24) { 9 } else { 8 };
+    let pl = match rng.below(sides) {
+        8 => *rng.pick(&[65_532usize, 65_533, 65_534, 65_535, 65_536, 65_540, 131_070, 131_072]),
         0 | 1 => 0,
         2 => 1,
         3 => 2,
@@ -578,6 +580,27 @@ impl Scenario for C04 {
                     data: wl.bytes(dl),
                 });
                 ctx.obs.count("probe:data-total-65535");
+            }
+        }
+        // without a length field nothing bounds a data message to 16 bits
+        if ctx.run % 16 == 8 {
+            for &(s, o) in &[(false, true), (true, true), (false, false)] {
+                let dl = *wl.pick(&[65_536usize, 65_537, 65_540, 70_000, 131_073]);
+                let off = if o {
+                    Some(*wl.pick(&[1u16, 5, 300, 65_535]))
+                } else {
+                    None
+                };
+                msgs.push(SpecMessage::Data {
+                    prio: wl.bool(),
+                    length: None,
+                    tunnel_id: wl.u16(),
+                    session_id: wl.u16(),
+                    ns_nr: if s { Some((wl.u16(), wl.u16())) } else { None },
+                    offset: off,
+                    data: wl.bytes(dl),
+                });
+                ctx.obs.count("probe:data-payload-beyond-64k");
             }
         }
         for (k, m) in msgs.into_iter().enumerate() {
@@ -1097,6 +1120,14 @@ impl Scenario for C07 {
                 push_val(Value::Avp(oversize_avp(&mut wl, pl)), &mut sm, &mut cases);
             }
         }
+        if ctx.run % 8 == 3 {
+            for pl in [65_529usize, 65_530, 65_535, 65_536, 65_600, 66_553, 66_554, 131_080] {
+                if wl.chance(1, 2) {
+                    push_val(Value::Avp(oversize_avp(&mut wl, pl)), &mut sm, &mut cases);
+                    ctx.obs.count("probe:avp-size-wraps-16-bits");
+                }
+            }
+        }
         if wl.chance(1, 3) {
             let hl = *wl.pick(&[1016usize, 1017, 1018, 1024, 1030]);
             push_val(
@@ -1349,19 +1380,23 @@ impl Scenario for C09 {
         let mut wl = rng.fork("workload");
         let mut sm = rng.fork("seams");
         for k in 0..6 {
-            let n = wl.urange(1, 6);
+            // now and then a long batch whose total passes 64 KiB
+            let n = if k == 5 && ctx.run % 32 == 7 { 60 } else { wl.urange(1, 6) };
             let mut values = Vec::new();
             for _ in 0..n {
                 values.push(match wl.below(4) {
                     0 => Value::Avp(gen_avp(&mut wl, &sw)),
                     1 => Value::Msg(gen_data(&mut wl, &sw)),
                     _ => {
-                        let lim = *wl.pick(&[64usize, 300, 1500]);
+                        let lim = if n > 6 { 2500 } else { *wl.pick(&[64usize, 300, 1500]) };
                         Value::Msg(gen_control(&mut wl, &sw, lim))
                     }
                 });
             }
             let (writer, prefix) = draw_writer(&mut sm);
+            if prefix.len() >= 65_532 {
+                ctx.obs.count("probe:prefix-at-or-beyond-64k");
+            }
             if !prefix.is_empty() || values.len() > 1 {
                 ctx.obs.distinct(fnv1a(&serde_json::to_vec(&(&values, &prefix)).unwrap()));
             }
